@@ -352,6 +352,7 @@ func (a *arrayObject) expand(idx uint32) bool {
 		} else {
 			if idx > 4096 && (a.objCount == 0 || idx/uint32(a.objCount) > 10) {
 				//log.Println("Switching standard->sparse")
+				verifArrayTransition(a.val, true)
 				sa := &sparseArrayObject{
 					baseObject:     a.baseObject,
 					length:         a.length,
